@@ -297,11 +297,25 @@ def run(prog: Program, rep, tier="quick"):
     rep.ob("R11.3", IDX, iw.qual, "zero trailer only when skipHash is configured", bool(skip) and not any(z in r for z in zero), "", iw.node.lineno)
     # ---- R11.4
     wd = fn("write_index_dict")
-    src = norm(wd.node, 100000)
-    rep.ob("R11.4", IDX, wd.qual, "entries iterated in sorted path order", "for key in sorted(entries)" in src, "", wd.node.lineno)
-    order = [src.find("MERGE_CONFLICT_ANCESTOR"), src.find("MERGE_CONFLICT_THIS"), src.find("MERGE_CONFLICT_OTHER")]
-    rep.ob("R11.4", IDX, wd.qual, "conflict stages emitted in ascending order (1, 2, 3)", all(o >= 0 for o in order) and order == sorted(order),
-           f"{order}", wd.node.lineno)
+    # the serialising loop may live in write_index_dict itself or in a module-level helper it calls (one level)
+    scope = [wd] + [m.funcs[callee_name(c)] for c in ast.walk(wd.node) if isinstance(c, ast.Call) and isinstance(c.func, ast.Name)
+                    and callee_name(c) in m.funcs and any(isinstance(x, ast.Call) and callee_name(x) == "serialize" for x in ast.walk(m.funcs[callee_name(c)].node))]
+    ser = [(f_, c) for f_ in scope for c in ast.walk(f_.node) if isinstance(c, ast.Call) and callee_name(c) == "serialize"]
+    loops = [(f_, lp) for f_ in scope for lp in ast.walk(f_.node) if isinstance(lp, ast.For) and isinstance(lp.iter, ast.Call) and callee_name(lp.iter) == "sorted"
+             and lp.iter.args and isinstance(lp.iter.args[0], ast.Name) and lp.iter.args[0].id in [a.arg for a in f_.node.args.args]
+             and not lp.iter.keywords]
+    inside = bool(loops) and all(any(any(x is c for x in ast.walk(lp)) for f2, lp in loops if f2 is f_) for f_, c in ser)
+    rep.ob("R11.4", IDX, wd.qual, "entries iterated in sorted path order", len(ser) >= 4 and inside,
+           f"{len(ser)} serialize() calls, {len(loops)} loops over sorted(<entries>) without a key function", wd.node.lineno)
+
+    def _pre(n_):
+        yield n_
+        for ch_ in ast.iter_child_nodes(n_):
+            yield from _pre(ch_)
+    seq = [x.attr for f_ in scope for x in _pre(f_.node) if isinstance(x, ast.Attribute) and x.attr.startswith("MERGE_CONFLICT_")]
+    first = [seq.index(k) if k in seq else -1 for k in ("MERGE_CONFLICT_ANCESTOR", "MERGE_CONFLICT_THIS", "MERGE_CONFLICT_OTHER")]
+    rep.ob("R11.4", IDX, wd.qual, "conflict stages emitted in ascending order (1, 2, 3)", all(o >= 0 for o in first) and first == sorted(first),
+           f"{first}", wd.node.lineno)
     stage_vals = {}
     for cname, cls in m.classes.items():
         if cname == "Stage":
